@@ -693,6 +693,7 @@ int main(void) {
     log_set_global_errh(errh, 0);
     log_epoch_secs = 1700000000;
     log_monotonic_secs = 1000;
+    strftime_cache_reset();
 
     memset(&srv0, 0, sizeof(srv0));
     memset(&con0, 0, sizeof(con0));
